@@ -1,6 +1,7 @@
 """C14 extra stream: Array<T> with a recursive owning element type. Copy / move assignment between
 related arrays (an array assigned from the array of one of its own items, or from an array that
-contains it) against the plain-sequence model (a Python tree with value semantics)."""
+contains it) against the plain-sequence model: the Lean value model `Model/SeqTree.lean` through the
+driver op `seqtree` (theorems `Props.C14.tree_*`), with the Python tree of this file as a second opinion."""
 import copy
 from vlib import core
 
@@ -72,9 +73,10 @@ def gen_program(rng, nops):
     return "atree " + ";".join(ops), "|".join(outs) if outs else "-"
 
 
-def run(ctx):
+def run(ctx, drv=None):
     h = ctx.build_harness("arraytree_harness.cpp")
-    if not h:
+    drv = drv or ctx.build_driver()
+    if not (h and drv):
         return
     rng = ctx.rng
     lines, exp = [], []
@@ -88,6 +90,16 @@ def run(ctx):
     impl, faults = core.run_lines_parallel(h, lines, jobs=12)
     for i, kind, err in faults:
         ctx.fail("fault:" + kind, "sanitizer fault assigning related arrays of a recursive element type: " + lines[i], {"line": lines[i], "stderr": err})
+    # the Lean model (value semantics of Model/SeqTree.lean) on the same programs
+    mlines = [l.replace("atree ", "seqtree ", 1) for l in lines]
+    model, _ = core.run_lines_parallel(drv, mlines, jobs=12, env=None)
+    keep = [i for i in range(len(lines)) if not impl[i].startswith("FAULT")]
+    ctx.correspond("array-tree(lean-model)", [mlines[i] for i in keep], [impl[i] for i in keep], [model[i] for i in keep],
+                   nontrivial=lambda l: ("c" in l.split(" ")[1]) or ("m" in l.split(" ")[1]))
+    for l, m, e in zip(lines, model, exp):
+        if m != e:
+            ctx.infra_errors.append("Lean tree model and the Python reference disagree on %s: %s vs %s" % (l, m[-160:], e[-160:]))
+            break
     n_alias = 0
     for l, a, e in zip(lines, impl, exp):
         if a.startswith("FAULT"):
